@@ -412,7 +412,7 @@ Record obs := {
   o_count : nat;                    (* model.prior_count *)
   o_ids : list nat;                 (* priors_ordered_by_id, renumbered the same way *)
   o_pv : list (path * float);       (* the path arguments handed to instance_from_path_arguments *)
-  o_inst : fival                    (* its result *)
+  o_inst : option fival             (* its result with assertions ignored (None: construction raised, e.g. division by zero) *)
 }.
 
 Inductive step := StepOk (f : form) (o : obs) | StepErr (f : form) (e : err).
@@ -423,7 +423,7 @@ Definition view_ok (o : obs) : bool :=
   list_eqb path_eqb (paths float n) (o_paths o)
   && Nat.eqb (prior_count float n) (o_count o)
   && list_eqb Nat.eqb (ordered_ids float n) (o_ids o)
-  && ival_eqb (inst_from_paths float fbin n (o_pv o)) (o_inst o).
+  && match o_inst o with Some i => ival_eqb (inst_from_paths float fbin n (o_pv o)) i | None => true end.
 
 Definition frt := rt float ffalsy.
 
